@@ -5,6 +5,7 @@ package geom
 import "math"
 
 func init() {
+	vfHarnesses["C16_interpolate_hunt"] = vfhC17InterpolateHunt
 	vfHarnesses["C16_densify_repeated"] = vfhC17DensifyRepeated
 	vfHarnesses["C17_snap_negative_hunt"] = vfhC17SnapNegativeHunt
 	vfHarnesses["C17_simplify_rings"] = vfhC17SimplifyRings
@@ -182,6 +183,19 @@ func vfhC17InterpolateHunt() {
 	if f >= 1 {
 		vfAssert(xy.X == 3, "fractions >= 1 give the end point")
 	}
+	// the same line with Z and M (constant 5 and 9): the interpolated point keeps the coordinate type
+	zm := ls.ForceCoordinatesType(DimXYZM)
+	zm = zm.TransformXY(func(v XY) XY { return v }) // (a copy)
+	seq := zm.Coordinates()
+	fs := make([]float64, 0, 4*seq.Length())
+	for i := 0; i < seq.Length(); i++ {
+		c := seq.Get(i)
+		fs = append(fs, c.X, c.Y, 5, 9)
+	}
+	pz := NewLineString(NewSequence(fs, DimXYZM)).InterpolatePoint(f)
+	cz, okz := pz.Coordinates()
+	vfAssert(okz && pz.CoordinatesType() == DimXYZM, "interpolating a ZM line gives a ZM point")
+	vfAssert(vfAnd(cz.Z == 5, cz.M == 9), "with the line's (constant) Z and M")
 	vfReach("end")
 }
 
